@@ -33,7 +33,8 @@ try:
         text = text.replace('/tmp/wt/standin', os.path.join(VERIF, 'tsim', 'fakes'))
         for w in ('/tmp/wt/%s' % meta.get('property', ''),):
             text = text.replace(w, src)
-        dp = os.path.join(root, 'demo.py'); open(dp, 'w').write(text)
+        os.makedirs(os.path.join(src, '_out'), exist_ok=True)      # same relative place as in the agent's worktree
+        dp = os.path.join(src, '_out', 'demo.py'); open(dp, 'w').write(text)
         r = subprocess.run(['/venv/bin/python', dp], cwd=src, env=e, capture_output=True, text=True, timeout=900)
         return r.returncode, (r.stdout + r.stderr)[-300:]
     rc0, out0 = rundemo()
